@@ -81,6 +81,12 @@ def run(ctx):
         po = dict(obligations=0, discharged=0, checker_cmd="", trusted_base=[], theorems={}, build_ok=False,
                   failed=["%s does not exist" % PROP_FILE], build_log_tail="")
     drv, dlog = C.lean_exe("drv_c04")
+    # c04_realstw's build.rs takes the two source files from /repo/dora-runtime/src unless VERIF_C04_SRC names
+    # another directory (mutation sanity runs on a scratch copy); cargo rebuilds whenever that variable changes,
+    # so a normal run always compiles the real files. A run with the variable set says so, loudly.
+    if os.environ.get("VERIF_C04_SRC"):
+        C.log("NOTE: VERIF_C04_SRC=%s — this run checks a COPY of safepoint.rs/threads.rs, not /repo" % os.environ["VERIF_C04_SRC"])
+        ctx.notes.append("VERIF_C04_SRC=%s: sources under test are not /repo's" % os.environ["VERIF_C04_SRC"])
     hbin, hlog = C.build_harness("h_c04")
     if hbin is None:
         ctx.finding("corr:build", dict(kind="correspondence", log=hlog[-3000:]),
